@@ -43,3 +43,10 @@ def tot_of(seq):
 def all_items(seq, body):
     k = L.fresh("k", L.IntS)
     return z3.ForAll([k], z3.Implies(z3.And(seq.lo <= k, k < seq.hi), body(z3.Select(seq.arr, k), k)))
+
+
+def target_fn(module, name):
+    """the function under contract, imported by its module path (NOT through a public alias of prtpy/__init__.py: the engine verifies the
+    function in that file, so the cross-check and the replay must run that function; what the public names are bound to is a separate obligation)"""
+    import importlib
+    return getattr(importlib.import_module(module), name)
